@@ -6,6 +6,7 @@
 package main
 
 import (
+	"encoding/json"
 	"fmt"
 	"os"
 	"reflect"
@@ -145,6 +146,16 @@ func sameArgs(a, b []interface{}) bool {
 }
 
 var raceLog string
+
+// isolatedExecs counts executions run in their own process (fallback after a replay divergence).
+var isolatedExecs int
+
+func isolatedCap(c *runner.Ctx) int {
+	if c.Thorough() {
+		return 20000
+	}
+	return 1500
+}
 
 // zombies: set once an execution deadlocked or hung (its threads stay parked for ever); see C10.
 var zombies bool
@@ -346,10 +357,68 @@ func run(c *runner.Ctx) {
 		if race {
 			before = raceLogSize()
 		}
-		res := ex.Explore()
+		var res vsched.Result
+		if one := os.Getenv("VERIF_ONE_EXEC"); one != "" {
+			// child of an isolated exploration: exactly one schedule in this (fresh) process
+			var choices []int
+			json.Unmarshal([]byte(one), &choices)
+			x := ex.Replay(choices)
+			if dv := ex.Diverged(); dv != "" {
+				fmt.Fprintf(os.Stderr, "HARNESS-ERROR: %s in a fresh process (threads %v)\n", dv, names)
+				os.Exit(3)
+			}
+			ok := ex.Check(x)
+			b, _ := json.Marshal(map[string]interface{}{"exec": x, "ok": ok})
+			os.WriteFile(os.Getenv("VERIF_ONE_OUT"), b, 0644)
+			res = vsched.Result{Execs: 1, Steps: int64(len(x.Trace))}
+		} else {
+			res = ex.Explore()
+		}
 		if res.Diverged != "" {
-			fmt.Fprintf(os.Stderr, "HARNESS-ERROR: %s (threads %v)\n", res.Diverged, names)
-			os.Exit(3)
+			// The same schedule prefix led to a different execution: something of the code under test survived from an
+			// earlier execution although inputs, pools and the type cache are fresh (process-global state). The harness is
+			// explored again with every execution in its own process, within a budget.
+			if isolatedExecs >= isolatedCap(c) {
+				c.MarkIncomplete()
+				c.Note("replay divergence (process-global state survives between executions); isolated-process budget used up: harnesses after that were not explored")
+				c.Done(false, 0)
+				return
+			}
+			c.Count("harnesses_explored_with_one_process_per_execution", 1)
+			ex.Remote = func(prefix []int) (*vsched.Exec, bool) {
+				if isolatedExecs >= isolatedCap(c) {
+					return nil, false
+				}
+				isolatedExecs++
+				of, _ := os.CreateTemp(os.Getenv("VERIF_SCRATCH"), "exec-*.json")
+				of.Close()
+				defer os.Remove(of.Name())
+				pj, _ := json.Marshal(prefix)
+				stderr, err := c.RunCaseInChild([]string{"VERIF_ONE_EXEC=" + string(pj), "VERIF_ONE_OUT=" + of.Name()})
+				if err != nil {
+					if strings.Contains(stderr, "HARNESS-ERROR") {
+						fmt.Fprintln(os.Stderr, stderr)
+						os.Exit(3)
+					}
+					c.Violation("isolated-execution-crashed", map[string]interface{}{"cache": cf.name, "threads": names, "schedule": prefix, "error": err.Error(), "stderr": stderr})
+					return nil, false
+				}
+				var r struct {
+					Exec *vsched.Exec `json:"exec"`
+					OK   bool         `json:"ok"`
+				}
+				b, _ := os.ReadFile(of.Name())
+				if json.Unmarshal(b, &r) != nil || r.Exec == nil {
+					return nil, false
+				}
+				if !r.OK {
+					reported["isolated"] = true
+				}
+				return r.Exec, r.OK
+			}
+			ex.Opt.StopAtFirst = true
+			res = ex.Explore()
+			ex.Remote = nil
 		}
 		if race {
 			if raceLogSize() > before && !zombies { // after a deadlock the abandoned threads make race reports unattributable
